@@ -62,94 +62,119 @@ def _full(dc, mc, tc):
     return verify_training_cfg(TrainingJobConfig(data_config=dc, model_config=mc, trainer_config=tc).to_sleap_nn_cfg())
 
 
-def data_args_reach_their_place(scale: float, max_height: int, max_width: int, chunk_size: int, min_crop_size: int, is_rgb: bool, user_only: bool, delete_chunks: bool) -> bool:
+def data_args_reach_their_place_a(scale: float, max_height: int, max_width: int, is_rgb: bool) -> bool:
     """
     pre: 0.0 <= scale <= 8.0
-    pre: 1 <= max_height <= 4096 and 1 <= max_width <= 4096 and 1 <= chunk_size <= 100000 and 1 <= min_crop_size <= 4096
+    pre: 1 <= max_height <= 4096 and 1 <= max_width <= 4096
     post: _
     """
     T = _builders()
-    dc = T.get_data_config(train_labels_path="a.slp", val_labels_path="b.slp", scale=scale, max_height=max_height, max_width=max_width, chunk_size=chunk_size,
-                           min_crop_size=min_crop_size, is_rgb=is_rgb, user_instances_only=user_only, delete_chunks_after_training=delete_chunks)
+    dc = T.get_data_config(train_labels_path="a.slp", val_labels_path="b.slp", scale=scale, max_height=max_height, max_width=max_width, is_rgb=is_rgb)
     c = _full(dc, T.get_model_config(backbone_config="unet", head_configs="single_instance"), T.get_trainer_config())
     p = c.data_config.preprocessing
     d = c.data_config
-    return (p.scale == scale and p.max_height == max_height and p.max_width == max_width and d.chunk_size == chunk_size and p.min_crop_size == min_crop_size
-            and p.is_rgb == is_rgb and d.user_instances_only == user_only and d.delete_chunks_after_training == delete_chunks
-            and d.train_labels_path == "a.slp" and d.val_labels_path == "b.slp" and d.use_augmentations_train is False and d.augmentation_config is None)
+    return (p.scale == scale and p.max_height == max_height and p.max_width == max_width and p.is_rgb == is_rgb and d.train_labels_path == "a.slp"
+            and d.val_labels_path == "b.slp" and d.use_augmentations_train is False and d.augmentation_config is None)
 
 
-def trainer_args_reach_their_place(batch_size: int, num_workers: int, top_k: int, max_epochs: int, seed: int, lr: float, min_delta: float, patience: int,
-                                   shuffle: bool, save_last: bool, amsgrad: bool, early: bool) -> bool:
+def data_args_reach_their_place_b(chunk_size: int, min_crop_size: int, user_only: bool, delete_chunks: bool) -> bool:
     """
-    pre: 1 <= batch_size <= 1024 and 0 <= num_workers <= 64 and -1 <= top_k <= 10 and 1 <= max_epochs <= 100000 and 0 <= seed <= 2**31
-    pre: 0.0 < lr <= 1.0 and 0.0 <= min_delta <= 1.0 and 1 <= patience <= 1000
+    pre: 1 <= chunk_size <= 100000 and 1 <= min_crop_size <= 4096
     post: _
     """
     T = _builders()
-    tc = T.get_trainer_config(batch_size=batch_size, shuffle_train=shuffle, num_workers=num_workers, ckpt_save_top_k=top_k, ckpt_save_last=save_last, max_epochs=max_epochs, seed=seed,
-                              learning_rate=lr, amsgrad=amsgrad, early_stopping=early, early_stopping_min_delta=min_delta, early_stopping_patience=patience)
+    dc = T.get_data_config(train_labels_path="a.slp", val_labels_path="b.slp", chunk_size=chunk_size, min_crop_size=min_crop_size, user_instances_only=user_only,
+                           delete_chunks_after_training=delete_chunks)
+    c = _full(dc, T.get_model_config(backbone_config="convnext", head_configs="centered_instance"), T.get_trainer_config())
+    d = c.data_config
+    return (d.chunk_size == chunk_size and d.preprocessing.min_crop_size == min_crop_size and d.user_instances_only == user_only and d.delete_chunks_after_training == delete_chunks
+            and d.preprocessing.scale == 1.0 and d.preprocessing.is_rgb is False)
+
+
+def trainer_args_reach_their_place_a(batch_size: int, num_workers: int, top_k: int, shuffle: bool, save_last: bool) -> bool:
+    """
+    pre: 1 <= batch_size <= 1024 and 0 <= num_workers <= 64 and -1 <= top_k <= 10
+    post: _
+    """
+    T = _builders()
+    tc = T.get_trainer_config(batch_size=batch_size, shuffle_train=shuffle, num_workers=num_workers, ckpt_save_top_k=top_k, ckpt_save_last=save_last)
     c = _full(T.get_data_config(train_labels_path="a.slp", val_labels_path="b.slp"), T.get_model_config(backbone_config="unet", head_configs="centroid"), tc).trainer_config
     return (c.train_data_loader.batch_size == batch_size and c.val_data_loader.batch_size == batch_size and c.train_data_loader.shuffle == shuffle
             and c.train_data_loader.num_workers == num_workers and c.val_data_loader.num_workers == num_workers and c.model_ckpt.save_top_k == top_k
-            and c.model_ckpt.save_last == save_last and c.max_epochs == max_epochs and c.seed == seed and c.optimizer.lr == lr and c.optimizer.amsgrad == amsgrad
-            and c.early_stopping.stop_training_on_plateau == early and c.early_stopping.min_delta == min_delta and c.early_stopping.patience == patience)
+            and c.model_ckpt.save_last == save_last)
 
 
-def backbone_dict_reaches_its_place(in_channels: int, filters: int, max_stride_log: int, output_stride_log: int, filters_rate: float) -> bool:
+def trainer_args_reach_their_place_b(max_epochs: int, seed: int) -> bool:
     """
-    pre: 1 <= in_channels <= 3 and 1 <= filters <= 256 and 0 <= output_stride_log <= max_stride_log <= 5 and 1.0 <= filters_rate <= 4.0
+    pre: 1 <= max_epochs <= 100000 and 0 <= seed <= 2**31
     post: _
     """
     T = _builders()
-    ms, os_ = 2 ** max_stride_log, 2 ** output_stride_log
-    mc = T.get_model_config(backbone_config={"unet": {"in_channels": in_channels, "filters": filters, "max_stride": ms, "output_stride": os_, "filters_rate": filters_rate}},
-                            head_configs={"single_instance": {"confmaps": {"part_names": None, "sigma": 2.5, "output_stride": os_}}})
+    tc = T.get_trainer_config(max_epochs=max_epochs, seed=seed)
+    c = _full(T.get_data_config(train_labels_path="a.slp", val_labels_path="b.slp"), T.get_model_config(backbone_config="swint", head_configs="bottomup"), tc).trainer_config
+    return c.max_epochs == max_epochs and c.seed == seed and c.optimizer_name == "Adam"
+
+
+def trainer_args_reach_their_place_d(lr: float, amsgrad: bool) -> bool:
+    """
+    pre: 0.0 < lr <= 1.0
+    post: _
+    """
+    T = _builders()
+    tc = T.get_trainer_config(learning_rate=lr, amsgrad=amsgrad)
+    c = _full(T.get_data_config(train_labels_path="a.slp", val_labels_path="b.slp"), T.get_model_config(backbone_config="unet", head_configs="single_instance"), tc).trainer_config
+    return c.optimizer.lr == lr and c.optimizer.amsgrad == amsgrad
+
+
+def trainer_args_reach_their_place_c(min_delta: float, patience: int, early: bool) -> bool:
+    """
+    pre: 0.0 <= min_delta <= 1.0 and 1 <= patience <= 1000
+    post: _
+    """
+    T = _builders()
+    tc = T.get_trainer_config(early_stopping=early, early_stopping_min_delta=min_delta, early_stopping_patience=patience)
+    c = _full(T.get_data_config(train_labels_path="a.slp", val_labels_path="b.slp"), T.get_model_config(backbone_config="unet", head_configs="centroid"), tc).trainer_config
+    return c.early_stopping.stop_training_on_plateau == early and c.early_stopping.min_delta == min_delta and c.early_stopping.patience == patience
+
+
+def backbone_dict_reaches_its_place_a(in_channels: int, filters: int) -> bool:
+    """
+    pre: 1 <= in_channels <= 3 and 1 <= filters <= 256
+    post: _
+    """
+    T = _builders()
+    mc = T.get_model_config(backbone_config={"unet": {"in_channels": in_channels, "filters": filters, "max_stride": 16, "output_stride": 2}},
+                            head_configs={"single_instance": {"confmaps": {"part_names": None, "sigma": 2.5, "output_stride": 2}}})
     c = _full(T.get_data_config(train_labels_path="a.slp", val_labels_path="b.slp"), mc, T.get_trainer_config()).model_config
     u = c.backbone_config.unet
-    return (u.in_channels == in_channels and u.filters == filters and u.max_stride == ms and u.output_stride == os_ and u.filters_rate == filters_rate
-            and c.backbone_config.convnext is None and c.backbone_config.swint is None and c.head_configs.single_instance.confmaps.sigma == 2.5
-            and c.head_configs.single_instance.confmaps.output_stride == os_ and c.head_configs.centroid is None and c.head_configs.bottomup is None)
+    return (u.in_channels == in_channels and u.filters == filters and u.max_stride == 16 and u.output_stride == 2 and c.backbone_config.convnext is None
+            and c.backbone_config.swint is None and c.head_configs.single_instance.confmaps.sigma == 2.5 and c.head_configs.centroid is None and c.head_configs.bottomup is None)
 
 
-def normalisation_is_idempotent(scale: float, max_height: int, batch_size: int, lr: float, is_rgb: bool) -> bool:
+def backbone_dict_reaches_its_place_b(max_stride: int, output_stride: int) -> bool:
     """
-    pre: 0.0 <= scale <= 8.0 and 1 <= max_height <= 4096 and 1 <= batch_size <= 1024 and 0.0 < lr <= 1.0
+    pre: max_stride in (8, 16, 32) and output_stride in (1, 2, 4)
+    post: _
+    """
+    T = _builders()
+    mc = T.get_model_config(backbone_config={"unet": {"in_channels": 1, "filters": 32, "max_stride": max_stride, "output_stride": output_stride}},
+                            head_configs={"centroid": {"confmaps": {"anchor_part": None, "sigma": 1.5, "output_stride": output_stride}}})
+    c = _full(T.get_data_config(train_labels_path="a.slp", val_labels_path="b.slp"), mc, T.get_trainer_config()).model_config
+    u = c.backbone_config.unet
+    return (u.max_stride == max_stride and u.output_stride == output_stride and c.head_configs.centroid.confmaps.output_stride == output_stride
+            and c.head_configs.centroid.confmaps.sigma == 1.5 and c.head_configs.single_instance is None)
+
+
+def normalisation_is_idempotent(scale: float, batch_size: int) -> bool:
+    """
+    pre: 0.0 <= scale <= 8.0 and 1 <= batch_size <= 1024
     post: _
     """
     from sleap_nn.config.training_job_config import verify_training_cfg
-    from omegaconf import OmegaConf
     T = _builders()
-    c1 = _full(T.get_data_config(train_labels_path="a.slp", val_labels_path="b.slp", scale=scale, max_height=max_height, is_rgb=is_rgb),
-               T.get_model_config(backbone_config="unet", head_configs="bottomup"), T.get_trainer_config(batch_size=batch_size, learning_rate=lr))
+    c1 = _full(T.get_data_config(train_labels_path="a.slp", val_labels_path="b.slp", scale=scale),
+               T.get_model_config(backbone_config="unet", head_configs="bottomup"), T.get_trainer_config(batch_size=batch_size))
     c2 = verify_training_cfg(c1)
-    return OmegaConf.to_container(c1) == OmegaConf.to_container(c2) and c2.data_config.preprocessing.scale == scale and c2.trainer_config.optimizer.lr == lr
-
-
-def probability_validator(p: float) -> bool:
-    """
-    post: _
-    """
-    from sleap_nn.config.data_config import IntensityConfig, GeometricConfig
-    ok = 0.0 <= p <= 1.0
-    res = []
-    for mk in (lambda: IntensityConfig(uniform_noise_p=p), lambda: IntensityConfig(gaussian_noise_p=p), lambda: IntensityConfig(contrast_p=p), lambda: IntensityConfig(brightness_p=p),
-               lambda: GeometricConfig(affine_p=p), lambda: GeometricConfig(erase_p=p), lambda: GeometricConfig(mixup_p=p)):
-        try:
-            mk()
-            res.append(True)
-        except ValueError:
-            res.append(False)
-    return all(r == ok for r in res)
-
-
-def scale_validator(s: float) -> bool:
-    """
-    post: _
-    """
-    from sleap_nn.config.data_config import PreprocessingConfig
-    try:
-        PreprocessingConfig(scale=s)
-        return s >= 0
-    except ValueError:
-        return not (s >= 0)
+    return (c2.data_config.preprocessing.scale == scale and c2.trainer_config.train_data_loader.batch_size == batch_size and c2.trainer_config.val_data_loader.batch_size == batch_size
+            and c1.data_config.preprocessing.scale == scale and set(c1.keys()) == set(c2.keys()) and c2.model_config.head_configs.bottomup is not None
+            and c2.model_config.head_configs.bottomup.confmaps.sigma == c1.model_config.head_configs.bottomup.confmaps.sigma)
